@@ -666,10 +666,15 @@ def dyadic(x):
 
 
 def scaled(xs):
-    """list of finite floats -> (list of ints, e) with x = int * 2**e"""
+    """list of finite floats -> (list of ints, e) with x = int * 2**e, e as large as possible"""
     ds = [dyadic(x) for x in xs]
     e = min([d[1] for d in ds if d[0]] or [0])
-    return [d[0] << (d[1] - e) if d[0] else 0 for d in ds], e
+    out = [d[0] << (d[1] - e) if d[0] else 0 for d in ds]
+    tz = min([(v & -v).bit_length() - 1 for v in out if v] or [0])
+    if tz:
+        out = [v >> tz for v in out]
+        e += tz
+    return out, e
 
 
 def rows_of(d, r, c, t):
